@@ -98,6 +98,27 @@ pub fn generate(property: &str, seed: u64, tier: Tier) -> Plan {
         };
         steps.push(s);
     }
+    // force-merge path (hard-conflict resolution): remember a folder log,
+    // keep editing, then replace the log with the remembered copy. Drawn from
+    // an independent stream and spliced in, so the rest of the plan for a seed
+    // is what it was before these operations existed.
+    if matches!(property, "C01" | "C02") {
+        let mut fr = Rng::new(seed).fork("acct.force");
+        if fr.chance(2, 3) && steps.len() > 6 {
+            let pairs = fr.range(1, 3);
+            for _ in 0..pairs {
+                let fslot = *fr.pick(&[0u64, 0, 4, 4, 5]);
+                let a = fr.below(steps.len() as u64 - 2) as usize;
+                let b = a + 1 + fr.below((steps.len() - a) as u64 - 1) as usize;
+                steps.insert(b.min(steps.len()), json!({"op":"frevert","fslot":fslot}));
+                steps.insert(a, json!({"op":"fsnap","fslot":fslot}));
+                if fr.chance(1, 2) {
+                    let c = (b + 2).min(steps.len());
+                    steps.insert(c, json!({"op":"restart"}));
+                }
+            }
+        }
+    }
     Plan {
         family: "acct".into(),
         property: property.into(),
@@ -131,6 +152,23 @@ pub async fn execute(plan: Plan, dir: &Path) -> RunOutcome {
         ora.before_step(&mut dev, s, &mut rec).await;
         let class = dev.exec(s, &mut rec, big).await;
         let class_short = class.split(':').next().unwrap_or("").to_string();
+        // A remembered folder log (fsnap) stands for "the copy another replica
+        // holds". It stays a valid force-merge source only while nothing that
+        // lives outside the folder log changed: keys (password / cipher),
+        // the clear-text attributes kept twice (name, flags, description) and
+        // the account-wide placement of secret ids (moves).
+        if !class.starts_with("skip") {
+            match opn.as_str() {
+                "move" | "archive" | "unarchive" | "chcipher" | "chpw_account" | "raw_create" | "fdelete" => dev.fsnaps.clear(),
+                "frename" | "fflags" | "fdesc" | "chpw_folder" => {
+                    dev.fsnaps.remove(&ju64(s, "fslot"));
+                }
+                _ => {}
+            }
+        }
+        if opn == "frevert" && class == "ok" {
+            rec.stats.probe("force_merge.applied");
+        }
         if class == "ok" || class == "ok_existing" {
             rec.stats.count("ops_ok");
         }
@@ -143,9 +181,20 @@ pub async fn execute(plan: Plan, dir: &Path) -> RunOutcome {
             "restart" | "signout_in" => "reload",
             _ => "live",
         };
+        if opn == "restart" && class.starts_with("err") {
+            rec.violate(
+                "C01",
+                &format!("C01/{}/restart/sign_in_failed", dev.kind.name()),
+                format!("a fresh account over the persisted storage does not open: {class}"),
+            );
+        }
         if dev.account.is_some() {
             dev.check_model(&mut rec, when, &opn, "C01").await;
             ora.after_step(&mut dev, s, &class, &mut rec).await;
+            if prop == "C02" {
+                // folder == replay(event log) == persisted vault mirror
+                crate::netoracle::check_replay_as(&mut dev, &mut rec, &opn, false, "C02").await;
+            }
         }
         rec.step(idx, &opn, &class_short, &format!("{} {}", dev.kind.name(), if class.starts_with("err") { class.clone() } else { String::new() }));
         rec.observe(&serde_json::to_string(&dev.model.folders).unwrap_or_default());
